@@ -311,6 +311,42 @@ func ZZ_C15_G567() {
 	// ---- block at height h1: freeze (or not)
 	g.height = zzverif.NondetI64In("h1", 3, 1<<31)
 	zzverif.Assume(g.height < applying)
+	// optionally one of the recorded voters is punished (byzantine evidence) in
+	// an earlier block, inside the voting window: its recorded power and the
+	// votes it cast shrink together, so the 2/3 rule below is evaluated on the
+	// reduced record (round 8, seed C15-h).  Evidence arriving in the closing
+	// block itself is outside the claim: freezeProposals evaluates the record
+	// committed by the previous block and the statement does not say otherwise.
+	h1 := g.height
+	if target := zzverif.Choose("punished", 4); target < 3 {
+		g.height = zzverif.NondetI64In("hp", 2, 1<<30)
+		zzverif.Assume(g.height <= end && g.height < h1)
+		ratio := g.params.SlashRatio()
+		ev := abcitypes.Evidence{Type: abcitypes.EvidenceType_DUPLICATE_VOTE, Validator: abcitypes.Validator{Address: zzAddr(target), Power: 1}, Height: g.height - 1}
+		_, xerrP := g.gc.BeginBlock(g.blockCtx([]abcitypes.Evidence{ev}))
+		zzverif.Assert(xerrP == nil, "G5 BeginBlock with evidence succeeds")
+		_, xerrP = g.gc.EndBlock(g.blockCtx(nil))
+		zzverif.Assert(xerrP == nil, "G5 EndBlock of the punishing block succeeds")
+		_, _, _ = g.gc.Commit()
+		wantP := sp.powers[target] - sp.powers[target]*ratio/100
+		if wantP <= 0 {
+			wantP = 0
+			sp.choices[target] = -1
+		}
+		sp.powers[target] = wantP
+		// the punishment reaches every open proposal that records the offender:
+		// the second proposal's only voter is voter 0
+		if sp2 != nil && target == 0 {
+			w2 := sp2.powers[0] - sp2.powers[0]*ratio/100
+			// a proposal whose whole recorded power was slashed away has a 2/3
+			// threshold of zero: degenerate, outside the claim (like totals < 2)
+			zzverif.Assume(w2 > 0)
+			sp2.powers[0] = w2
+		}
+		zzverif.Assume(sp.powers[0]+sp.powers[1]+sp.powers[2] >= 2)
+		zzverif.Reach("G567 voter punished before the close")
+	}
+	g.height = h1
 	_, xerr := g.gc.EndBlock(g.blockCtx(nil))
 	zzverif.Assert(xerr == nil, "G5 EndBlock succeeds")
 	_, _, _ = g.gc.Commit()
